@@ -57,6 +57,34 @@ CHECKS = {
         note="Trusted: CPython's inspect.Signature.bind as the oracle, the instrumented body as cross-check. Variadic parameter names not judged.",
         technique="explicit exhaustive enumeration of signatures x accepted call shapes on the real code, CPython binding as oracle",
         design="3/C05"),
+    "C06": dict(
+        text="Exhaustive enumeration of a typed expression grammar covering the forms the statement lists (constants; names from "
+             "arguments/closure/globals/builtins incl. an argument shadowing a builtin, arguments bound to None and names that "
+             "exist both as argument and as global; attributes, method calls; subscripts, slices; calls with positional, keyword, "
+             "* and ** arguments; unary/binary/boolean/comparison operators incl. chains; conditional and assignment expressions; "
+             "f-strings; displays; comprehensions and generator expressions; all()/any(), nested): depth<=1 complete, all "
+             "parent/child pairs (thorough: full products of binary productions and depth-3 chains), each in 6 falsifying frames "
+             "on 4 valuations and three roles. For every falsy (condition, valuation) the real message is parsed and compared "
+             "with an independent recording of CPython's evaluation of the same text (every sub-expression wrapped in a recorder "
+             "call): each line names an evaluated sub-expression or a call argument and shows a_repr.repr of a value it took; the "
+             "all()-example is the first falsifying assignment; completeness of arguments and of evaluated "
+             "names/attributes/calls/subscripts/comprehensions.",
+        note="Trusted: CPython as the oracle, the recorder (AST rewriting that preserves evaluation order and short-circuiting), the "
+             "message parser. Two recorded omissions (KF-C06-1, KF-C06-2).",
+        technique="exhaustive grammar enumeration on the real code with CPython itself as the reference (instrumented re-evaluation)",
+        design="3/C06"),
+    "C07": dict(
+        text="(a) the whole C06 condition set with rotating error forms: exact exception class at the caller, location line pointing "
+             "at the decorator, condition text whose AST equals the generated expression; (b) 25 guard conditions whose later "
+             "operands are only defined when earlier ones hold (and/or chains, comparison chains, conditional expressions, "
+             "generator filters, guards nested in calls/displays/f-strings/walrus) x 8 valuations, instrumented with probes: the "
+             "probes hit during message building must be a subset of those Python hit, and the violation must not be replaced by "
+             "another exception; (c) layout product: 17 decorator layouts (one line, lambda on next line, many lines, keyword "
+             "forms in every order, comments incl. column 0, blank line) x 5 decorator spellings (alias, module alias, "
+             "require/ensure/invariant) x 6 neighbour configurations x 4 scopes x def/async def/class x 3 conditions.",
+        note="Trusted: CPython, the probe instrumentation, ast.dump for text equality.",
+        technique="exhaustive enumeration of conditions x falsifying inputs and of decorator layouts on the real code; probe-subset oracle for short-circuiting",
+        design="3/C07"),
     "C08": dict(
         text="Exhaustive exploration of family F with 0-2 own/inherited snapshots (captures copy or alias; OLD read by conditions "
              "or only by error factories) x precondition truth assignments x each postcondition falsy x mutating / rebinding / "
